@@ -351,6 +351,11 @@ def runSizes (c : Json) : Option Json := do
     | _ => none
   pure (Json.arr #[Json.num (JsonNumber.fromNat 0), Json.num (JsonNumber.fromNat mx)])
 
+def runValues (c : Json) : Option Json := do
+  let vs ← (c.getObjVal? "vals").toOption >>= fun a => a.getArr?.toOption
+  let ns ← vs.toList.mapM jInt?
+  pure (Json.bool (Rel.valuesUnique ns))
+
 def handle (line : String) : Json :=
   match Json.parse line with
   | .error e => Json.mkObj [("model", Json.null), ("error", Json.str s!"parse: {e}")]
@@ -366,6 +371,7 @@ def handle (line : String) : Json :=
       | "filter" => runFilter c
       | "limit" => runLimit c
       | "sizes" => runSizes c
+      | "values" => runValues c
       | "clip" => runClip c ((j.getObjVal? "aux").toOption.getD Json.null)
       | "dpevent" => runDpEvent c
       | "dpquery" => runDpQuery ((j.getObjVal? "aux").toOption.getD Json.null)
